@@ -127,7 +127,9 @@ CHECKS = {
                   "correspondence; data-level clause by probe-column oracle",
         text="Pdt/Props/C09.lean: scope_unchanged / ref_survives (rename, select, drop, filter, arrange, slice_head, group_by, ungroup, alias(keep) keep every "
              "UUID in scope with its metadata), ref_survives_mutate (overwriting mutate), ref_survives_join_left, tcol_resolves_by_identity (resolution of t.x "
-             "does not look at current names), cname_resolves_by_name, cname_unknown_rejected, plus C16.origin_ref_rejected. Oracle: probe columns on the real "
+             "does not look at current names), cname_resolves_by_name, cname_unknown_rejected, plus C16.origin_ref_rejected; C09Scope.lean: summarize_scope (after summarize only grouping columns and "
+             "the new aggregate columns are in scope) and dropped_ref_rejected (a reference to any other column of the input is rejected with ColumnNotFoundError, "
+             "never resolved to another column). Oracle: probe columns on the real "
              "code (every reference from an intermediate table used on the final table equals the column it denoted; derived[ref].name; C.name; out-of-scope "
              "references raise ColumnNotFoundError), cross-backend equality of the probes, scenario programs with hidden-name collisions across joins and subqueries.",
         design_ref="DESIGN.md section 5, C09",
